@@ -200,7 +200,7 @@ PROPS["C17"] = {
     "level_note": "Trusted: Lean kernel + 3 axioms; goroutine ids are unique among live goroutines; sync.Map is linearizable; the scheduler's switch points are the scripted bodies' GetStub() calls (library-internal GetStub() calls are not switch points). Partial by nature: Go-memory-model data races on fields every invocation rewrites (BaseContract.config, BaseToken.tokenConfig, BaseToken.config) are outside an interleaving model.",
     "trusted_base": ["context table modelled by Foundation.Env (cell per thread id)", "facts: envKeyedByGoid, envInstallSites, getStubReadsEnv re-extracted each run"],
     "hypotheses": ["each invocation runs on its own goroutine (Fabric shim)"],
-    "not_modelled": ["data races on shared configuration fields under true parallelism", "switch points inside library code"],
+    "not_modelled": ["data races on shared configuration fields under true parallelism", "switch points inside library code other than stub operations (state reads and writes and access-control calls of the token methods ARE switch points in the transfer / setFee runs)"],
     "assumptions": [],
     "timeout": 3000,
 }
